@@ -48,7 +48,8 @@ impl Scenario for Lifecycle {
         "seeded lifecycle runs (archive × codec × sync/async writer and reader × transfer/pending policies); distinct = distinct serialized cases; non-trivial = at least one tile and a non-plain schedule on writer or reader disk".into()
     }
     fn generate(&self, rng: &mut Rng, tier: Tier, run: u64) -> Value {
-        let titanic = self.prop == "C02" && (run == 1 || (run == 3 && tier == Tier::Thorough));
+        // (C01: the same archive once per batch through the round trip, writer face by the seed)
+        let titanic = (self.prop == "C02" && (run == 1 || (run == 3 && tier == Tier::Thorough))) || (self.prop == "C01" && run == 1);
         let size = if titanic {
             // one archive per batch (async writer; thorough: one more through the sync writer)
             // whose first pointer root is over the budget, so the leaf size has to grow
@@ -76,7 +77,9 @@ impl Scenario for Lifecycle {
         let rface = Face::draw(rng);
         let mut sched = if rng.chance(90) { Sched::draw(rng, wface, rface) } else { Sched::plain() };
         if titanic {
-            wface = if run == 1 { Face::Async } else { Face::Sync };
+            if self.prop == "C02" {
+                wface = if run == 1 { Face::Async } else { Face::Sync };
+            }
             sched = Sched::plain();
         }
         to_value(&LifeCase { a, wface, rface, sched, scramble: rng.next_u64() })
